@@ -1,4 +1,4 @@
-import vf, steps
+import vf, steps, seqs
 
 ENC = ["cminx.aggregator.DocumentationAggregator.process_ct_add_test", "process_ct_add_section", "process_add_test",
        "enterDocumented_command / enterCommand_invocation", "cminx.documentation_types.TestDocumentation.process",
@@ -30,4 +30,6 @@ def build(tier):
     # C11.b nesting of sections in a test's function: inductive steps on pending / definition stack
     obs += steps.step_obligations("C11.b", ["ct_add_test", "ct_add_section", "function", "endfunction"], tier, 2 if quick else 3, 1,
                                   symargs=True)
+    # C11.b whole sequences: tests/sections next to documented set()/generic commands and their implementing functions, documented or not
+    obs += seqs.seq_obligations('C11.b', ['ct_add_test', 'ct_add_section', 'function', 'endfunction', 'set', 'message', 'add_test'], 3 if quick else 4, 1, timeout=400 if quick else 2400)
     return dict(obligations=obs, explanation="x", assumptions=[])
